@@ -90,3 +90,54 @@ def register(reg):
                 ('ypeak - slices_large[0].start', 'ypeak + slices_large[0].start')]
                if 'xpeak' in kwspec else []),
         ))
+    register_quadratic(reg)
+
+
+def register_quadratic(reg):
+    """centroid_quadratic: (1) the fitting box, after the shift that compensates clipping at an
+    image edge, has the full requested size, lies inside the image and contains the peak pixel;
+    (2) the returned position is the stationary point of the fitted polynomial
+    c0 + c10 x + c01 y + c11 xy + c20 x^2 + c02 y^2 (so a source that *is* such a polynomial is
+    located exactly, whatever the least-squares solver returns being its coefficients)."""
+    hx, hy = '(fit_boxsize[1] - 1) / 2', '(fit_boxsize[0] - 1) / 2'
+    reg.add(Contract(
+        target=C + 'centroid_quadratic', props=['C17'], tag='fit-box',
+        block=('xidx0', 'yidx0'),
+        params={'slc_data': 'slice2', 'fit_boxsize': ('tuple', 'pos', 'pos'), 'nx': 'pos',
+                'ny': 'pos', 'xidx': 'int', 'yidx': 'int'},
+        requires=[
+            'fit_boxsize[0] % 2 == 1 and fit_boxsize[1] % 2 == 1',
+            'fit_boxsize[0] <= ny and fit_boxsize[1] <= nx',
+            '1 <= xidx and xidx <= nx - 2 and 1 <= yidx and yidx <= ny - 2',
+            # astropy.nddata.overlap_slices(mode='trim') for an odd size and an integer position
+            f'slc_data[1].start == max(0, xidx - {hx}) and '
+            f'slc_data[1].stop == min(nx, xidx + {hx} + 1)',
+            f'slc_data[0].start == max(0, yidx - {hy}) and '
+            f'slc_data[0].stop == min(ny, yidx + {hy} + 1)'],
+        ensures=[
+            ('full-size', 'xidx1 - xidx0 == fit_boxsize[1] and yidx1 - yidx0 == fit_boxsize[0]'),
+            ('inside-the-image', '0 <= xidx0 and xidx1 <= nx and 0 <= yidx0 and yidx1 <= ny'),
+            ('contains-the-peak-pixel',
+             'xidx0 <= xidx and xidx < xidx1 and yidx0 <= yidx and yidx < yidx1'),
+        ],
+        note='assumes astropy.nddata.overlap_slices(mode="trim") = [max(0, p - h), '
+             'min(n, p + h + 1)) for size 2h + 1 at integer position p (stated as a precondition)',
+        mutants=[('xidx1 = min(nx, xidx0 + fit_boxsize[1])', 'xidx1 = min(nx, xidx0 + fit_boxsize[0])'),
+                 ('xidx0 = max(0, xidx1 - fit_boxsize[1])', 'xidx0 = max(0, xidx1 - fit_boxsize[1] + 1)'),
+                 ('if yidx0 == 0:', 'if yidx0 == 1:'),
+                 ('yidx0 = max(0, yidx1 - fit_boxsize[0])', 'yidx0 = max(0, yidx1 - fit_boxsize[1])')],
+    ))
+    reg.add(Contract(
+        target=C + 'centroid_quadratic', props=['C17'], tag='stationary-point',
+        block=('c10', 'ym'),
+        params={'c': ('tuple', 'real', 'real', 'real', 'real', 'real', 'real')},
+        ensures=[
+            ('gradient-vanishes-in-x', 'c[1] + c[3] * ym + 2 * c[4] * xm == 0'),
+            ('gradient-vanishes-in-y', 'c[2] + c[3] * xm + 2 * c[5] * ym == 0'),
+            ('a-maximum', '4 * c[4] * c[5] - c[3] * c[3] > 0 and c[4] < 0 and c[5] < 0'),
+        ],
+        mutants=[('xm = (c01 * c11 - 2.0 * c02 * c10) / det', 'xm = (c01 * c11 - 2.0 * c20 * c10) / det'),
+                 ('ym = (c10 * c11 - 2.0 * c20 * c01) / det', 'ym = (c10 * c11 + 2.0 * c20 * c01) / det'),
+                 ('det = 4 * c20 * c02 - c11**2', 'det = 4 * c20 * c02 + c11**2'),
+                 ('_, c10, c01, c11, c20, c02 = c', '_, c01, c10, c11, c20, c02 = c')],
+    ))
